@@ -27,11 +27,24 @@ func VfC17_ParseMetadata() {
 	for i := 0; i < 2; i++ {
 		vfAssume(vfOr(xy[i] == d[0], vfOr(xy[i] == d[1], xy[i] == d[2])))
 	}
+	// which of the three definitions are `distinct` (every subset: the marker
+	// belongs to the definition whatever its body is - two fields, a cycle, or
+	// none at all: `distinct !{}` is the canonical access-group node)
+	dset := 2
+	if vfChoice("distinct-set", 2) == 1 {
+		dset = vfChoice("distinct-subset", 8)
+	}
+	dm := func(i int) string {
+		if dset>>uint(i)&1 == 1 {
+			return "distinct "
+		}
+		return ""
+	}
 	src := "@g = global i32 0, !dbg " + b + "\n" +
 		"!named = !{" + a + ", !" + xy[0:1] + "}\n" +
-		a + " = !{" + b + ", !{" + c + "}}\n" + // forward reference and an inline tuple
-		b + " = distinct !{" + a + ", " + c + "}\n" + // cycle a <-> b
-		c + " = !{}\n" +
+		a + " = " + dm(0) + "!{" + b + ", !{" + c + "}}\n" + // forward reference and an inline tuple
+		b + " = " + dm(1) + "!{" + a + ", " + c + "}\n" + // cycle a <-> b
+		c + " = " + dm(2) + "!{}\n" +
 		"!named = !{" + c + ", !" + xy[1:2] + "}\n"
 	m, err := ParseString("t.ll", src)
 	vfReach("C17.parse")
@@ -67,7 +80,7 @@ func VfC17_ParseMetadata() {
 		return
 	}
 	vfAssert("C17.parse.ascending-order", vfAnd(m.MetadataDefs[0].ID() < m.MetadataDefs[1].ID(), m.MetadataDefs[1].ID() < m.MetadataDefs[2].ID()))
-	vfAssert("C17.parse.distinct-preserved", vfAnd(nb.Distinct, vfAnd(vfNot(na.Distinct), vfNot(nc.Distinct))))
+	vfAssert("C17.parse.distinct-preserved", vfAnd(nb.Distinct == (dset>>1&1 == 1), vfAnd(na.Distinct == (dset&1 == 1), nc.Distinct == (dset>>2&1 == 1))))
 	vfAssert("C17.parse.forward-ref-identity", na.Fields[0] == metadata.Field(nb))
 	vfAssert("C17.parse.cycle-identity", vfAnd(nb.Fields[0] == metadata.Field(na), nb.Fields[1] == metadata.Field(nc)))
 	inl, ok := na.Fields[1].(*metadata.Tuple)
@@ -94,6 +107,8 @@ func VfC17_ParseMetadata() {
 	vfAssert("C17.parse.attachment-identity", vfAnd(len(att) == 1, att[0].Node == metadata.MDNode(nb)))
 	out := m.String()
 	vfObserveStr("out", out)
+	// the printed definitions carry the marker exactly where the input has it
+	vfAssert("C17.parse.distinct-printed", vfAnd(hContains(out, c+" = "+dm(2)+"!{}\n"), hContains(out, b+" = "+dm(1)+"!{"+a+", "+c+"}\n")))
 }
 
 // hC17Kinds: one minimal, well-typed spelling of each of the 28 specialised
